@@ -280,6 +280,10 @@ class Interp(Ops):
                 self.frames.pop()
         else:
             raise OutsideSubset("global kind %s" % kind)
+        absg = self.opts.get("abstract_globals") or {}
+        if key in absg:
+            # contract option: a module-level constant is replaced by an abstraction built from its real value
+            v = absg[key](self, v)
         self.globals_cache[key] = v
         return v
 
@@ -367,8 +371,18 @@ class Interp(Ops):
                 continue
             rest_simple = all(self._simple(v) for v in vals[i:])
             if rest_simple:
-                # no side effects possible: merge without forking
-                nxt = self.ev(vals[i])
+                # no side effects possible: merge without forking; the right operand is only evaluated when the
+                # left one lets it (short circuit), so obligations it raises are guarded by that condition
+                guard = t if is_and else z3.Not(t)
+                mark = len(self.pc)
+                self.pc.append(guard)
+                try:
+                    nxt = self.ev(vals[i])
+                finally:
+                    added = self.pc[mark + 1:]
+                    del self.pc[mark:]
+                    for f_ in added:
+                        self.pc.append(z3.Implies(guard, f_))
                 cur = self.merge_boolop(is_and, cur, t, nxt)
                 continue
             go_on = self.decide(t if is_and else z3.Not(t), "boolop")
@@ -436,6 +450,10 @@ class Interp(Ops):
         if b is None and (is_num(a) or isinstance(a, Opt)):
             aa = a if isinstance(a, Opt) else Opt(z3.BoolVal(False), to_z3(a))
             return Opt(z3.If(t, aa.isnone, z3.BoolVal(True)), aa.val)
+        if isinstance(a, Opt) and is_num(b):
+            return Opt(z3.If(t, a.isnone, z3.BoolVal(False)), z3.If(t, *unify(to_z3(a.val), to_z3(b))))
+        if isinstance(b, Opt) and is_num(a):
+            return Opt(z3.If(t, z3.BoolVal(False), b.isnone), z3.If(t, *unify(to_z3(a), to_z3(b.val))))
         if isinstance(a, tuple) and isinstance(b, tuple) and len(a) == len(b):
             return tuple(self.ite(t, x, y) for x, y in zip(a, b))
         if isinstance(a, Opaque) or isinstance(b, Opaque):
